@@ -26,7 +26,7 @@ type inPkt struct {
 
 type c02Case struct {
 	Chunked  bool      `json:"chunked_post"` // polling data requests without Content-Length
-	Form     string    `json:"form"` // v4 | v3s | v3b | v3b64 | jsonp4 | jsonp3 | ws4 | ws3 | ws4b64 | ws3b64 | wt
+	Form     string    `json:"form"`         // v4 | v3s | v3b | v3b64 | jsonp4 | jsonp3 | ws4 | ws3 | ws4b64 | ws3b64 | wt
 	Payloads [][]inPkt `json:"payloads"`
 	Negative string    `json:"negative"` // "" | candidate-message | after-close
 	Seed     string    `json:"seed"`
